@@ -1,4 +1,10 @@
 """Unit `heap`: marwood/src/vm/heap.rs — allocation, interning, free, sweep, mark (C03, C12, C18)."""
+import os, sys
+sys.path.insert(0, os.path.dirname(os.path.abspath(__file__)))
+import importlib
+import heap_mark
+importlib.reload(heap_mark)
+
 
 PRELUDE = r'''
 use vstd::std_specs::hash::*;
@@ -255,8 +261,8 @@ UNITS = [{
     'file': 'src/vm/heap.rs',
     'wrap': ['struct Heap'],
     'wraps_types': ['Heap'],
-    'uses_types': ['VCell', 'Cell', 'Continuation', 'Lambda', 'RcDeref'],
-    'prelude': PRELUDE,
+    'uses_types': ['VCell', 'Cell', 'Continuation', 'Lambda', 'RcDeref', 'Vector', 'LexicalEnvironment'],
+    'prelude': PRELUDE + heap_mark.MARK_PRELUDE,
     'fns': {
         # f64 arithmetic in the growth policy: contract assumed (Kani-bounded harness heap_grow spot-checks it)
         'impl Heap::grow': {
@@ -384,3 +390,5 @@ UNITS = [{
         },
     },
 }]
+
+UNITS[0]['fns'].update(heap_mark.MARK_FNS)
